@@ -128,7 +128,7 @@ def suite_hist(tier):
     for s in specs:
         by_class.setdefault(s[0], []).append(s)
     cases = []
-    per = 6 if tier == "quick" else 40
+    per = 14 if tier == "quick" else 60
     for name, ss in sorted(by_class.items()):
         pool = []
         for s in ss:
